@@ -1230,7 +1230,7 @@ proof fn lemma_iter_cong(a: &SimpleDSet, b: &SimpleDSet, j: int, x: int, k: nat)
 //@ rw R12 /let mut orbit_rs = vec!\[\];/let mut orbit_rs: Vec<usize> = vec![];/
 //@ rw R12 /let mut orbit_is_chain = vec!\[\];/let mut orbit_is_chain: Vec<bool> = vec![];/
 //@ rw R12 /let mut steps = 0;/let mut steps: usize = 0;/
-//@ rw R10 /for d in 1\.\.=ds\.size\(\)$/for d in 1..(ds.size()) + 1/
+//@ rw R10 /for d in 1\.\.=([\w.()]+)$/for d in 1..(\1) + 1/
 //@ rw R8 /^([ \t]*)is_chain \|= (.*);$/\1is_chain = is_chain || (\2);/
 #[verifier::spinoff_prover]
 #[verifier::exec_allows_no_decreases_clause]
